@@ -1250,8 +1250,8 @@ end XotModel.Props
 
   `C11_histories_interleaved` refuses another step as soon as one of its written node arguments lies in the same
   parentless tree as a tracked element (`touchesEntries`).  `sharpTouches` (Model/FframeSpec.lean) asks, for the calls
-  of the domain of `C05_frame_general` (append, prepend, insert_after, insert_before, detach, remove, the value
-  setters, node creation, set_text_consolidation) that answer `ok` on live arguments, only that neither the
+  of the domain of `C05_frame_general` (the nine structural calls, clone_node, map insert / remove made as plain API
+  calls, the value setters, node creation, set_text_consolidation) that answer `ok` on live arguments, only that neither the
   tracked element nor one of its children is in `Forest.XCall.writtenParents`, inside the removed subtree or inside
   the moved subtree; for every other step it is `touchesEntries`.  So appending a text node to a SIBLING of a
   tracked element, or removing a cousin, no longer blocks the prediction. -/
